@@ -409,3 +409,38 @@ for _cls in ('TimeDependentSingleSiteTDVP', 'TimeDependentTwoSiteTDVP'):
              hooks={f'{MPSC}::Sweep.init_env': _init_env_hook, f'{TDVP}::TDVPEngine.init_env': _init_env_hook,
                     f'{TDVP}::{_cls}.init_env': _init_env_hook},
              ensures=_TD_POST + ['env_inits == 1 and env_model is self.model'])       # environments rebuilt once, with the current model
+
+
+# ---------------------------------------------------------------------------------------------
+# TEBDEngine.evolve called directly with a prepared propagator (what run_GS does for imaginary time): the advertised time advances by
+# N_steps * tau - the *time* of the prepared step (dt for real time, -i*dt for imaginary time: `tau` is an independent symbol here, the
+# complex number -i*delta_t abstracted to a real one) - not by N_steps times its magnitude delta_t; truncation errors accumulate.
+def _hunt_imag():
+    import warnings
+    import numpy as np
+    warnings.simplefilter('ignore')
+    from tenpy.models.xxz_chain import XXZChain
+    from tenpy.networks.mps import MPS
+    from tenpy.algorithms.tebd import TEBDEngine
+    M = XXZChain({'L': 4, 'Jxx': 1., 'Jz': 1., 'hz': 0.2, 'bc_MPS': 'finite'})
+    for order in (1, 2, 4):
+        for kind, unit in (('imag', -1.j), ('real', 1.)):
+            psi = MPS.from_product_state(M.lat.mps_sites(), ['up', 'down'] * 2, 'finite')
+            eng = TEBDEngine(psi, M, {'trunc_params': {'chi_max': 8}})
+            eng.calc_U(order, 0.05, type_evo=kind)
+            eng.evolve(3, 0.05)
+            if abs(eng.evolved_time - 3 * 0.05 * unit) > 1e-12:
+                return {'input': {'order': order, 'type_evo': kind, 'delta_t': 0.05, 'N_steps': 3},
+                        'observed': f'evolved_time = {eng.evolved_time!r}, documented {3 * 0.05 * unit!r}'}
+    return None
+
+
+Contract(target=f'{TEBD}::TEBDEngine.evolve', props=['C14'], name='TEBDEngine.evolve[prepared step, tau independent of |dt|]',
+         params={'self': Obj('TEBDEngine', TEBD, {'evolved_time': Real(), 'trunc_err': _TE(), 'psi': _PSI(),
+                                                  '_U_param': DictOf({'order': OneOf(1, 2, 4, '4_opt'), 'tau': Real(), 'delta_t': Real(), 'type_evo': 'imag'})}),
+                 'N_steps': Int(), 'dt': Real()},
+         setup=_setup_engine, hooks=_HOOKS, hunt=_hunt_imag,
+         requires=['N_steps >= 0', "dt == self._U_param['delta_t']"],
+         ensures=["self.evolved_time == old(self.evolved_time) + N_steps * old(self._U_param['tau'])",
+                  'result.eps == performed - old(performed)'],
+         loops={(f'{TEBD}::TEBDEngine.evolve', 0): {'inv': _INV_ACC, 'frame': _FR, 'ghost_mut': ['performed'], 'ghost_pre': _GP}})
